@@ -5,7 +5,7 @@
 
   * `pyEq`      — Python's `==` on JSON-shaped values (what `client_auth == self.auth` and
                   `client_auth in self.auth` compute),
-  * `adminConnect` / `admit` — the credential gate of `admin_connect`,
+  * `adminConnect` / `admits` — the credential gate of `admin_connect`,
   * `registered` / `instrumentReg` — which handlers `instrument()` registers on the admin namespace
                   as a function of `mode` and `read_only`, as an overlay on the server's registry
                   (K4/K8), so that `Sio.Server.resolve` / `Sio.Server.step` decide what an admin
@@ -200,7 +200,7 @@ def configure : AuthArg → Except Err AuthCfg
 
 /-- the gate proper: `true` = the handler returns normally (the connection is accepted),
     `false` = `raise ConnectionRefusedError('authentication failed')` -/
-def admit : AuthCfg → J → Bool
+def admits : AuthCfg → J → Bool
   | .disabled, _ => true
   | .dict d, a => pyEq a (.obj d)
   | .list ds, a => ds.any (fun d => pyEq a d)
@@ -230,7 +230,7 @@ def present : Option J → J
   | none => .null
 
 /-- the gate as seen from the wire -/
-def admitWire (cfg : AuthCfg) (payload : Option J) : Bool := admit cfg (present payload)
+def admitsWire (cfg : AuthCfg) (payload : Option J) : Bool := admits cfg (present payload)
 
 /-! ### what `instrument()` registers -/
 
@@ -267,7 +267,7 @@ def instrumentReg (app : Server.Registry) (adminNs : Ns) (mode : Str) (readOnly 
 
 /-- the connect handler's outcome, in the vocabulary of the server model's script -/
 def connectOutcome (cfg : AuthCfg) (payload : Option J) : Server.ConnRes :=
-  if admitWire cfg payload then .accept
+  if admitsWire cfg payload then .accept
   else .refuse [.str "authentication failed".toList]
 
 end Sio.Admin
